@@ -395,8 +395,101 @@ func init() {
 	})
 }
 
+type c17Out struct {
+	am.Struct
+	V T3 `argmapper:",typeOnly"`
+	W T4 `argmapper:"w"`
+}
+
+// runC17Struct: a function returning a marker struct (by value or pointer),
+// optionally run-once, is used both as a converter and called directly, in
+// random order: the direct caller must always see exactly what the body
+// returned (the same pointer), however often the result was adapted for
+// converter use in between.
+func runC17Struct(c *CaseCtx, r *rand.Rand) (res CaseResult) {
+	ptr := r.Intn(3) > 0
+	withErr := r.Intn(2) == 0
+	once := r.Intn(2) == 0
+	res.Key = fmt.Sprintf("struct-result ptr=%v err=%v once=%v", ptr, withErr, once)
+	res.NonTrivial = true
+	det := map[string]interface{}{"results": res.Key}
+	defer func() {
+		if p := recover(); p != nil {
+			res.violate("C06", "panic/result-"+crashKey(fmt.Sprint(p)), fmt.Sprintf("panicked: %v", p), det)
+		}
+	}()
+	execs := 0
+	var last *c17Out
+	mkv := func() *c17Out {
+		execs++
+		last = &c17Out{V: T3{ID: int64(1000 + execs)}, W: T4{ID: int64(2000 + execs)}}
+		return last
+	}
+	var fn interface{}
+	switch {
+	case ptr && withErr:
+		fn = func() (*c17Out, error) { return mkv(), nil }
+	case ptr:
+		fn = func() *c17Out { return mkv() }
+	case withErr:
+		fn = func() (c17Out, error) { return *mkv(), nil }
+	default:
+		fn = func() c17Out { return *mkv() }
+	}
+	var opts []am.Arg
+	if once {
+		opts = append(opts, am.FuncOnce())
+	}
+	f, err := am.NewFunc(fn, opts...)
+	if err != nil {
+		res.violate("C14", "accepted-shape-rejected", "NewFunc rejected a struct-returning function: "+err.Error(), det)
+		return res
+	}
+	var seen int64
+	consumer, _ := am.NewFunc(func(v T3) T5 { seen = v.ID; return T5{ID: v.ID} })
+	for k := 0; k < 2+r.Intn(5); k++ {
+		if r.Intn(2) == 0 {
+			rr := consumer.Call(am.ConverterFunc(f))
+			res.Evals++
+			if rr.Err() != nil {
+				res.violate("C05", "incomplete/provider", "consumer of a struct-returning provider failed: "+firstLine(errStr(rr.Err())), det)
+			} else if last != nil && seen != last.V.ID && !once {
+				res.violate("C01", "binding/stale", fmt.Sprintf("consumer observed #%d, the provider's last execution returned #%d", seen, last.V.ID), det)
+			}
+			res.obs("converter_uses", 1)
+		} else {
+			rr := f.Call()
+			res.Evals++
+			if rr.Err() != nil || rr.Len() != 1 {
+				res.violate("C17", "len", fmt.Sprintf("struct-returning function: Len() = %d, Err() = %v", rr.Len(), rr.Err()), det)
+				continue
+			}
+			if ptr {
+				p, ok := rr.Out(0).(*c17Out)
+				if !ok || p != last {
+					res.violate("C17", "out", fmt.Sprintf("Out(0) is %T %v, the function returned the pointer %p", rr.Out(0), rr.Out(0), last), det)
+				}
+			} else {
+				v, ok := rr.Out(0).(c17Out)
+				if !ok || v.V.ID != last.V.ID || v.W.ID != last.W.ID {
+					res.violate("C17", "out", fmt.Sprintf("Out(0) is %T %v, the function returned %v", rr.Out(0), rr.Out(0), *last), det)
+				}
+			}
+			res.obs("direct_calls_of_struct_functions", 1)
+		}
+		if once && execs > 1 {
+			res.violate("C11", "once-reexecuted", fmt.Sprintf("run-once function executed %d times", execs), det)
+		}
+	}
+	res.Sample = det
+	return res
+}
+
 func runC17(c *CaseCtx) (res CaseResult) {
 	r := caseRand(c.Seed, "C17", c.Idx)
+	if c.Idx%6 == 5 {
+		return runC17Struct(c, r)
+	}
 	k := r.Intn(5)
 	var outT []reflect.Type
 	var vals []reflect.Value
